@@ -366,42 +366,60 @@ pub fn panic_msg(p: Box<dyn std::any::Any + Send>) -> String {
     }
 }
 
-/// silence the default panic printer for expected/handled panics
-pub fn quiet_panics() {
-    std::panic::set_hook(Box::new(|_| {}));
+thread_local! {
+    static IN_GENERATION: std::cell::Cell<bool> = const { std::cell::Cell::new(false) };
 }
 
-fn describe(g: &Generator, entropy: &Entropy) -> String {
+/// silence the default panic printer for panics of the code under test (they are caught and
+/// judged); panics of the harness itself are still printed
+pub fn quiet_panics() {
+    std::panic::set_hook(Box::new(|info| {
+        let in_gen = IN_GENERATION.try_with(|c| c.get()).unwrap_or(false);
+        if !in_gen {
+            eprintln!("pfv harness panic: {}", info);
+        }
+    }));
+}
+
+/// cheap description of the call for the watchdog: a JSON template with `@ENT@` in place of the
+/// entropy, plus the raw entropy bytes (hex-encoded only if the call is ever reported)
+fn describe(g: &Generator, entropy: &Entropy) -> (String, Vec<u8>) {
     let names: Vec<String> = g.mutators.iter().map(|m| format!("\"{}\"", m.name())).collect();
-    let ent = match entropy {
-        Entropy::Seed(s) => format!("{{\"seed\":{}}}", g.seed.unwrap_or(*s)),
-        Entropy::Bytes(b) => format!("{{\"bytes_hex\":\"{}\"}}", hex(&b[..b.len().min(8192)])),
+    let (ent, raw) = match entropy {
+        Entropy::Seed(s) => (format!("{{\"seed\":{}}}", g.seed.unwrap_or(*s)), Vec::new()),
+        Entropy::Bytes(b) => ("@ENT@".to_string(), b[..b.len().min(16384)].to_vec()),
     };
     let rate = if g.mutation_rate.is_finite() {
         format!("{}", g.mutation_rate)
     } else {
         format!("\"{}\"", g.mutation_rate)
     };
-    format!(
-        "{{\"proto\":{},\"entropy\":{},\"min\":{},\"max\":{},\"mutators\":[{}],\"rate\":{},\"raw_rate\":true,\"unsafe\":{},\"ext\":{},\"buf\":{}}}",
-        g.state.version as u8,
-        ent,
-        g.min_opcodes,
-        g.max_opcodes,
-        names.join(","),
-        rate,
-        g.unsafe_mutations,
-        g.allow_ext_opcodes,
-        g.allow_buffer_opcodes
+    (
+        format!(
+            "{{\"proto\":{},\"entropy\":{},\"min\":{},\"max\":{},\"mutators\":[{}],\"rate\":{},\"raw_rate\":true,\"unsafe\":{},\"ext\":{},\"buf\":{}}}",
+            g.state.version as u8,
+            ent,
+            g.min_opcodes,
+            g.max_opcodes,
+            names.join(","),
+            rate,
+            g.unsafe_mutations,
+            g.allow_ext_opcodes,
+            g.allow_buffer_opcodes
+        ),
+        raw,
     )
 }
 
 pub fn gen_once(g: &mut Generator, entropy: &Entropy) -> Outcome {
-    let _watch = watch::enter(describe(g, entropy), g.min_opcodes.max(g.max_opcodes));
+    let (desc, raw) = describe(g, entropy);
+    let _watch = watch::enter(desc, raw, g.min_opcodes.max(g.max_opcodes));
+    IN_GENERATION.with(|c| c.set(true));
     let r = catch_unwind(AssertUnwindSafe(|| match entropy {
         Entropy::Seed(_) => g.generate(),
         Entropy::Bytes(b) => g.generate_from_arbitrary(b),
     }));
+    IN_GENERATION.with(|c| c.set(false));
     match r {
         Ok(Ok(b)) => Outcome::Ok(b),
         Ok(Err(e)) => Outcome::Err(format!("{}", e)),
@@ -413,17 +431,44 @@ pub fn gen_once(g: &mut Generator, entropy: &Entropy) -> Outcome {
 pub fn run_case(cfg: &Config, trace: Option<verif::Config>) -> CaseResult {
     let mut g = cfg.build();
     if let Some(w) = cfg.warmup {
-        // reused generator: an earlier, unrelated generation on the same instance
+        // reused generator: an earlier, unrelated generation on the same instance, followed by one
+        // of several legal ways of getting the object ready for the observed call. On a correct
+        // tree none of this can matter: every generation starts from a reset machine and reads the
+        // configuration fields afresh.
         let (m0, m1, s0) = (g.min_opcodes, g.max_opcodes, g.seed);
+        let (v0, e0, b0) = (g.state.version, g.allow_ext_opcodes, g.allow_buffer_opcodes);
         // one warm-up in 16 is a large pickle (buffers and tables grown well past their defaults)
         let big = w % 16 == 0;
+        let style = (w >> 4) % 5;
         g.min_opcodes = if big { 2500 } else { 150 };
         g.max_opcodes = if big { 3000 } else { 400 };
         g.seed = Some(w);
+        if style == 2 {
+            // the earlier pickle was generated for another protocol (public field `state.version`)
+            let other = ((cfg.proto as u64 + 1 + (w >> 8) % 5) % 6) as usize;
+            g.state.version = Version::try_from(other).expect("proto");
+        }
+        if style == 3 {
+            // ... or with the opt-in opcodes switched the other way (public fields)
+            g.allow_ext_opcodes = !e0;
+            g.allow_buffer_opcodes = !b0;
+        }
         let _ = gen_once(&mut g, &Entropy::Seed(w));
         g.min_opcodes = m0;
         g.max_opcodes = m1;
         g.seed = s0;
+        g.state.version = v0;
+        g.allow_ext_opcodes = e0;
+        g.allow_buffer_opcodes = b0;
+        match style {
+            1 => {
+                // the caller took the output buffer instead of copying it
+                let _taken = std::mem::take(&mut g.output);
+            }
+            3 => g.output.clear(),
+            4 => g.reset(),
+            _ => {}
+        }
     }
     if let Some(t) = trace {
         verif::start(t);
@@ -621,6 +666,7 @@ pub mod watch {
         pub thread: libc::pthread_t,
         pub active: bool,
         pub desc: String,
+        pub raw: Vec<u8>,
         pub budget_s: f64,
         pub cpu_start: f64,
         pub wall_start: Instant,
@@ -642,6 +688,7 @@ pub mod watch {
                 thread: unsafe { libc::pthread_self() },
                 active: false,
                 desc: String::new(),
+                raw: Vec::new(),
                 budget_s: 0.0,
                 cpu_start: 0.0,
                 wall_start: Instant::now(),
@@ -674,15 +721,17 @@ pub mod watch {
                 // free the description now: nothing of the monitor may stay allocated across
                 // the leak monitor's measurement window
                 s.desc = String::new();
+                s.raw = Vec::new();
             });
         }
     }
 
     /// register the generation call that is about to start on this thread
-    pub fn enter(desc: String, opcode_budget: usize) -> Guard {
+    pub fn enter(desc: String, raw: Vec<u8>, opcode_budget: usize) -> Guard {
         MINE.with(|m| {
             let mut s = m.lock().unwrap();
             s.desc = desc;
+            s.raw = raw;
             s.budget_s = work_bound(opcode_budget);
             s.cpu_start = clock(libc::CLOCK_THREAD_CPUTIME_ID);
             s.wall_start = Instant::now();
@@ -713,7 +762,9 @@ pub mod watch {
                     if !s.active || s.wall_start.elapsed().as_secs_f64() < s.budget_s.min(20.0) {
                         continue;
                     }
-                    (s.thread, s.desc.clone(), s.budget_s, s.cpu_start, s.wall_start.elapsed().as_secs_f64())
+                    let hexed: String = s.raw.iter().map(|b| format!("{:02x}", b)).collect();
+                    let d = s.desc.replace("@ENT@", &format!("{{\"bytes_hex\":\"{}\"}}", hexed));
+                    (s.thread, d, s.budget_s, s.cpu_start, s.wall_start.elapsed().as_secs_f64())
                 };
                 let mut cid: libc::clockid_t = 0;
                 if unsafe { libc::pthread_getcpuclockid(thread, &mut cid) } != 0 {
